@@ -195,12 +195,22 @@ func (g *jsonGen) feeInfo() *actiontypes.FeeInfo {
 func (g *jsonGen) payload() (*core.PayloadWrapper, string) {
 	fwd, how := g.forwarding()
 	var acts []*core.Action
-	nact := rng.Pick(g.r, []int{0, 0, 1, 1, 1, 2})
+	nact := rng.Pick(g.r, []int{0, 0, 1, 1, 1, 2, 3})
+	// three actions: an identifier repeated next to itself or with another one in between
+	var ids3 []core.ActionID
+	if nact == 3 && g.r.Chance(70) {
+		ids3 = rng.Pick(g.r, [][]core.ActionID{{1, 2, 1}, {2, 1, 2}, {1, 1, 2}, {1, 2, 2}})
+	}
 	for i := 0; i < nact; i++ {
 		n := rng.Pick(g.r, []int{0, 1, 1, 2, 3, 5, 6})
 		infos := make([]*actiontypes.FeeInfo, n)
 		for j := range infos {
 			infos[j] = g.feeInfo()
+		}
+		if ids3 != nil {
+			how = strings.Replace(how, "constructor", "direct", 1)
+			acts = append(acts, &core.Action{Id: ids3[i], Attributes: anyOf(&actiontypes.FeeAttributes{FeesInfo: infos})})
+			continue
 		}
 		if a, err := actiontypes.NewFeeAction(infos...); err == nil && i == 0 {
 			acts = append(acts, a)
@@ -885,6 +895,10 @@ func JSONFam(r *rng.R, n int) Result {
 				}
 			}
 			decodeCase(t.text(), class, true)
+		}
+		if g.r.Chance(10) {
+			// a complete document followed by something: not a JSON document
+			decodeCase(memo+rng.Pick(g.r, []string{"}", " x", `,"forward":{}`, memo, "\x00", "]", " null"}), "trailing-bytes", true)
 		}
 	}
 	// a malformed stream outside the tree model: text that is not JSON must be refused
